@@ -72,6 +72,11 @@ func genCase(t *rapid.T, env *ev.Env) Case {
 		case 4:
 			// a leftover of some earlier interrupted write: a part with a fresh id that nothing references
 			c.Disturb[i] = Disturb{Kind: "orphan", N: rapid.IntRange(0, 3).Draw(t, "ostore")}
+			if stack == "P8" && rapid.Bool().Draw(t, "opartial") {
+				// erasure-coded store: the leftover of a multi-store delete that was interrupted after the first
+				// shard store (the part's shard in shard store 0 is gone, the others are still there)
+				c.Disturb[i].Kind = "orphan-partial"
+			}
 		}
 	}
 	return c
@@ -126,7 +131,7 @@ func runCase(env *ev.Env, c Case) (o ev.Outcome) {
 					overwrites++
 				}
 			}
-		case d.Kind == "orphan":
+		case d.Kind == "orphan" || d.Kind == "orphan-partial":
 			sess.Step(op)
 			st := metadatapart.VerifNamedStores(inst.Storage)[stores[d.N%len(stores)]]
 			id, _ := partstore.NewRandomPartId()
@@ -134,6 +139,14 @@ func runCase(env *ev.Env, c Case) (o ev.Outcome) {
 			err := database.WithTx(context.Background(), db, &sql.TxOptions{}, func(ctx context.Context, tx database.Tx) error {
 				return st.PutPart(ctx, tx, *id, strings.NewReader("orphaned part content"))
 			})
+			if err == nil && d.Kind == "orphan-partial" {
+				if s0 := inst.Builder.Bases[stores[d.N%len(stores)]+".s0"]; s0 != nil {
+					err = database.WithTx(context.Background(), db, &sql.TxOptions{}, func(ctx context.Context, tx database.Tx) error {
+						return s0.DeletePart(ctx, tx, *id)
+					})
+					o.Class("planted-partial-orphan-on-erasure-coded-store")
+				}
+			}
 			if err != nil {
 				o.Failf("harness: planting an orphan part failed: %v", err)
 				return
@@ -314,6 +327,34 @@ func converged(inst *stacks.Instance, layout stacks.Layout, stores []string) str
 	for id := range ref {
 		if !all[id] {
 			return fmt.Sprintf("referenced part %s is in no store", id)
+		}
+	}
+	// erasure-coded stores: look into every shard store as well (a shard of an unreferenced part that the
+	// composite store's own listing does not show is still unreclaimed content)
+	if inst.Builder != nil {
+		var shardStores []string
+		for name := range inst.Builder.Bases {
+			if i := strings.LastIndex(name, ".s"); i > 0 && len(name) > i+2 && strings.Trim(name[i+2:], "0123456789") == "" {
+				shardStores = append(shardStores, name)
+			}
+		}
+		sort.Strings(shardStores)
+		db := metadatapart.VerifDatabase(inst.Storage)
+		for _, name := range shardStores {
+			var ids []partstore.PartId
+			err := database.WithTx(context.Background(), db, &sql.TxOptions{ReadOnly: true}, func(ctx context.Context, tx database.Tx) error {
+				var err error
+				ids, err = inst.Builder.Bases[name].GetPartIds(ctx, tx)
+				return err
+			})
+			if err != nil {
+				return fmt.Sprintf("GetPartIds(shard store %s): %v", name, err)
+			}
+			for _, id := range ids {
+				if ref[id.String()] == 0 {
+					return fmt.Sprintf("shard store %q still holds a shard of unreferenced part %s", name, id.String())
+				}
+			}
 		}
 	}
 	db := metadatapart.VerifDatabase(inst.Storage)
